@@ -3663,6 +3663,8 @@ class __implementations__:
     @implements(numpy.choose)
     def choose(a, choices):
         a, *choices = broadcast_arrays(a, *typecast_arrays(*choices))
+        if a.dtype == bool:
+            a = a.astype(int)
         return _Wrapper(evaluable.Choose, a, numpy.stack(choices, -1), shape=a.shape, dtype=choices[0].dtype)
 
     @implements(numpy.linalg.norm)
